@@ -46,7 +46,7 @@ class Ctl:
         for st in trace:
             t = st["thread"]
             if t == "interrupt":
-                self.expected["main"].append({"g": "INTERRUPT", "start": True, "step": idx, "at_gate": st.get("at_gate")})
+                self.expected["main"].append({"g": "INTERRUPT", "start": True, "step": idx, "at_gate": st.get("at_gate"), "line": st.get("line")})
                 self.order.append("main")
                 idx += 1
                 continue
@@ -299,10 +299,19 @@ def _instrs(code):
     return d
 
 
+HAS_INTERRUPT = any(st.get("thread") == "interrupt" for st in TRACE)
+
+
 def _on_instruction(code, off):
     ins = _instrs(code).get(off)
     if ins is None:
         return
+    if HAS_INTERRUPT and threading.current_thread() is threading.main_thread():
+        # an asynchronous KeyboardInterrupt of the model is delivered at the first instruction of its source line that the
+        # coordinator reaches once everything before it in the schedule has happened (raising here = raising at that instruction)
+        q = ctl.expected.get("main")
+        if q and q[0]["g"] == "INTERRUPT" and q[0].get("line") is not None and ins.positions is not None and ins.positions.lineno == q[0]["line"]:
+            ctl.gate("line")
     op = ins.opname
     if op in ("LOAD_DEREF", "STORE_DEREF") and ins.argval in GATED_VARS:
         ctl.gate(f"var:{ins.argval}:{'load' if op == 'LOAD_DEREF' else 'store'}")
@@ -319,7 +328,7 @@ def _all_codes(c):
 
 def install_instruction_hooks():
     """Per-instruction callbacks (sys.monitoring, Python 3.12) on every code object of run_function_on_graph.py."""
-    if not (GATED_VARS or GATED_MAPS):
+    if not (GATED_VARS or GATED_MAPS or HAS_INTERRUPT):
         return
     mon = sys.monitoring
     mon.use_tool_id(mon.DEBUGGER_ID, "verif-replay")
